@@ -3,7 +3,7 @@
 //!
 //! Form events:   {fam, op, ..., outs: [{forms, out}]}                (agreement only)
 //! Clone machine: {fam: "clone", op, dst, src, k, regs: [int; NREG]}   (state after the step)
-use dashu_base::Inverse;
+use dashu_base::{DivEuclid, DivRemEuclid, Inverse, RemEuclid};
 use dashu_float::{Context, FBig, Repr};
 use dashu_int::fast_div::ConstDivisor;
 use dashu_int::{IBig, UBig, Word};
@@ -18,10 +18,11 @@ use serde_json::{json, Value};
 fn fval<R: dashu_float::round::Round, const B: Word>(f: &FBig<R, B>) -> Value {
     enc_repr(f.repr())
 }
-fn float_case<R: dashu_float::round::Round, const B: Word>(log: &mut Log, mode: &str, op: &str, a: &Repr<B>, b: &Repr<B>, prec: usize, n: isize) {
-    let ctx = Context::<R>::new(prec);
-    let x: FBig<R, B> = FBig::from_repr(a.clone(), ctx);
-    let y: FBig<R, B> = FBig::from_repr(b.clone(), ctx);
+fn float_case<R: dashu_float::round::Round, const B: Word>(log: &mut Log, mode: &str, op: &str, a: &Repr<B>, b: &Repr<B>, prec: usize, prec_b: usize, n: isize) {
+    // the operators work at the larger of the two operand precisions; the Context form is called at that precision
+    let ctx = Context::<R>::new(prec.max(prec_b));
+    let x: FBig<R, B> = FBig::from_repr(a.clone(), Context::<R>::new(prec));
+    let y: FBig<R, B> = FBig::from_repr(b.clone(), Context::<R>::new(prec_b));
     let mut outs = Outs::new();
     macro_rules! bin {
         ($op:tt, $opa:tt, $m:ident) => {{
@@ -37,16 +38,16 @@ fn float_case<R: dashu_float::round::Round, const B: Word>(log: &mut Log, mode: 
         "div" => bin!(/, /=, div),
         "sqr" => {
             outs.push("m", guarded(|| fval(&x.sqr())));
-            outs.push("ctx", guarded(|| fval(&ctx.sqr(x.repr()).value())));
+            outs.push("ctx", guarded(|| fval(&Context::<R>::new(prec).sqr(x.repr()).value())));
         }
         "cubic" => {
             outs.push("m", guarded(|| fval(&x.cubic())));
-            outs.push("ctx", guarded(|| fval(&ctx.cubic(x.repr()).value())));
+            outs.push("ctx", guarded(|| fval(&Context::<R>::new(prec).cubic(x.repr()).value())));
         }
         "inv" => {
             outs.push("v", guarded(|| fval(&x.clone().inv())));
             outs.push("r", guarded(|| fval(&(&x).inv())));
-            outs.push("ctx", guarded(|| fval(&ctx.inv(x.repr()).value())));
+            outs.push("ctx", guarded(|| fval(&Context::<R>::new(prec).inv(x.repr()).value())));
         }
         "neg" => {
             outs.push("v", guarded(|| fval(&(-x.clone()))));
@@ -64,7 +65,7 @@ fn float_case<R: dashu_float::round::Round, const B: Word>(log: &mut Log, mode: 
         }
         _ => panic!("float op {}", op),
     }
-    log.ev(json!({"prop": "C15", "fam": "float", "op": op, "base": B, "mode": mode, "prec": prec, "n": n as i64,
+    log.ev(json!({"prop": "C15", "fam": "float", "op": op, "base": B, "mode": mode, "prec": prec, "prec_b": prec_b, "n": n as i64,
         "a": enc_repr(a), "b": enc_repr(b), "outs": outs.grouped()}));
 }
 fn random_sig(rng: &mut Rng, base: u64, digits: usize) -> IBig {
@@ -81,8 +82,10 @@ fn float_random(log: &mut Log, rng: &mut Rng) {
     let mode = *rng.pick(MODES);
     let prec = 1 + rng.below(30) as usize;
     let op = *rng.pick(&["add", "sub", "mul", "div", "sqr", "cubic", "inv", "neg", "shl", "shr", "add", "sub"]);
+    // half of the time the right operand has its own (larger or smaller) precision
+    let prec_b = if rng.coin() { prec } else { 1 + rng.below(30) as usize };
     let sa = random_sig(rng, base, prec);
-    let mut sb = random_sig(rng, base, prec);
+    let mut sb = random_sig(rng, base, prec_b);
     if (op == "div" && sb == IBig::ZERO) || rng.below(16) == 0 {
         sb = IBig::ONE;
     }
@@ -91,7 +94,7 @@ fn float_random(log: &mut Log, rng: &mut Rng) {
     let eb = ea + rng.range(-(prec as i64) - 3, prec as i64 + 3) as isize;
     let n = rng.range(-70, 70) as isize;
     dispatch_base!(base, B => dispatch_mode!(mode, R => {
-        float_case::<R, B>(log, mode, op, &Repr::<B>::new(sa, ea), &Repr::<B>::new(sb, eb), prec, n)
+        float_case::<R, B>(log, mode, op, &Repr::<B>::new(sa, ea), &Repr::<B>::new(sb, eb), prec, prec_b, n)
     }));
 }
 
@@ -100,13 +103,20 @@ fn small_int(rng: &mut Rng, max_words: usize) -> IBig {
     if rng.coin() { IBig::from(rng.range(-50, 50)) } else { random_ibig(rng, max_words) }
 }
 fn ratio_random(log: &mut Log, rng: &mut Rng, max_words: usize) {
-    let op = *rng.pick(&["add", "sub", "mul", "div"]);
+    let op = *rng.pick(&["add", "sub", "mul", "div", "rem", "euclid", "euclid"]);
     let an = small_int(rng, max_words);
     let mut ad = random_ubig(rng, max_words);
     if ad == UBig::ZERO { ad = UBig::ONE; }
     let bn = small_int(rng, max_words);
     let mut bd = random_ubig(rng, max_words);
     if bd == UBig::ZERO || rng.coin() { bd = UBig::ONE; }
+    // denominators that share a factor (the reduction by gcd(b, d) is a code path of its own)
+    if rng.below(3) == 0 {
+        let g = UBig::from(2u8 + rng.below(30) as u8);
+        ad = ad * &g;
+        bd = bd * &g;
+    }
+    let bn = if (op == "div" || op == "rem" || op == "euclid") && bn == IBig::ZERO && rng.below(4) != 0 { IBig::ONE } else { bn };
     let relaxed = rng.coin();
     let mut outs = Outs::new();
     macro_rules! fam {
@@ -136,7 +146,29 @@ fn ratio_random(log: &mut Log, rng: &mut Rng, max_words: usize) {
                 "add" => bin!(+, +=),
                 "sub" => bin!(-, -=),
                 "mul" => bin!(*, *=),
-                _ => bin!(/, /=),
+                "div" => bin!(/, /=),
+                "rem" => {
+                    forms_binop!(outs, "", x, y, %, $enc);
+                    forms_assign!(outs, "", x, y, %=, $enc);
+                }
+                _ => {
+                    // Euclidean forms: quotient only, remainder only, both; encoded like the integer division forms
+                    let q = |v: &IBig| json!({"conv": "E", "hq": 1, "hr": 0, "q": enc_i(v), "r": json!(0)});
+                    let r = |v: &$T| json!({"conv": "E", "hq": 0, "hr": 1, "q": json!(0), "r": $enc(v)});
+                    let qr = |a: &IBig, b: &$T| json!({"conv": "E", "hq": 1, "hr": 1, "q": enc_i(a), "r": $enc(b)});
+                    outs.push("E.q:vv", guarded(|| q(&x.clone().div_euclid(y.clone()))));
+                    outs.push("E.q:rv", guarded(|| q(&(&x).div_euclid(y.clone()))));
+                    outs.push("E.q:vr", guarded(|| q(&x.clone().div_euclid(&y))));
+                    outs.push("E.q:rr", guarded(|| q(&(&x).div_euclid(&y))));
+                    outs.push("E.r:vv", guarded(|| r(&x.clone().rem_euclid(y.clone()))));
+                    outs.push("E.r:rv", guarded(|| r(&(&x).rem_euclid(y.clone()))));
+                    outs.push("E.r:vr", guarded(|| r(&x.clone().rem_euclid(&y))));
+                    outs.push("E.r:rr", guarded(|| r(&(&x).rem_euclid(&y))));
+                    outs.push("E.qr:vv", guarded(|| { let (a, b) = x.clone().div_rem_euclid(y.clone()); qr(&a, &b) }));
+                    outs.push("E.qr:rv", guarded(|| { let (a, b) = (&x).div_rem_euclid(y.clone()); qr(&a, &b) }));
+                    outs.push("E.qr:vr", guarded(|| { let (a, b) = x.clone().div_rem_euclid(&y); qr(&a, &b) }));
+                    outs.push("E.qr:rr", guarded(|| { let (a, b) = (&x).div_rem_euclid(&y); qr(&a, &b) }));
+                }
             }
         }};
     }
